@@ -493,8 +493,11 @@ class LoadEngine(object):
             w, (c.scp.TimeoutError, c.mcmod.SpiNNakerLoadingError),
             call_load)
         self.n_loads += 1
-        if status != "ok":
-            c.settle()
+        # a retransmitted copy of the call's last command (the END packet of
+        # a bare flood fill, the start signal of a load) may still be on its
+        # way when the call returns on the first, late, reply: it belongs to
+        # this operation, not to the next one (section 7.1)
+        c.settle()
         # -- fills: well-formedness and what each one selected ---------
         fills = self.split_fills(self.dedup(m.ff_log))
         per_binary = {}
